@@ -209,7 +209,11 @@ class TileManager(object):
 
             for created_tile in created_tiles:
                 if created_tile.coord in tiles:
-                    tiles[created_tile.coord].source = created_tile.source
+                    tile = tiles[created_tile.coord]
+                    tile.source = created_tile.source
+                    # also take over the cacheable flag, timestamp and size (CacheInfo) of
+                    # the created tile, e.g. uncacheable error responses split from a meta tile
+                    tile.cacheable = created_tile.cacheable
 
         return tiles
 
